@@ -86,6 +86,10 @@ func (c19) Gen(rs uint64, tier string, race bool) interface{} {
 		s := []byte(a.Seqs[0])
 		s[0] = 'E'
 		a.Seqs[0] = string(s)
+		if r.Chance(0.2) {
+			// built through the API without alphabet detection: the flag says "unknown", the residues are amino acids
+			a.Alphabet = align.UNKNOWN
+		}
 	} else if r.Chance(0.4) && l >= 12 {
 		s := []byte(a.Seqs[r.Intn(n)])
 		copy(s, "ATGGCTGAATAA")
@@ -132,6 +136,9 @@ func (c19) Run(ctx *Ctx, ci interface{}) (o Outcome) {
 	verifrt.SetMapSeed(c.MapSeed, true)
 	defer verifrt.SetMapSeed(0, false)
 	orig, err := buildOriginal(&c.Aln)
+	if err == nil && c.Aln.Alphabet == align.UNKNOWN {
+		orig, err = c.Aln.Build() // no alphabet detection: the flag stays "unknown"
+	}
 	if err != nil {
 		panic("harness: " + err.Error())
 	}
@@ -389,11 +396,12 @@ func (c19) Run(ctx *Ctx, ci interface{}) (o Outcome) {
 			dna.DistMatrix(al, nil, mod, -1, -1, -1, -1, false, 0, 1+op.I%3)
 		case "mldist":
 			isQuery = true
-			if !isAl || n < 2 || al.Alphabet() != align.AMINOACIDS {
+			if !isAl || n < 2 || (al.Alphabet() != align.AMINOACIDS && al.Alphabet() != align.UNKNOWN) {
 				applied = false
 				break
 			}
-			pm, err := protein.NewProtDistModel(op.N%5, op.Flag, false, 0, op.I%2 == 0)
+			modelFreqs := op.Flag || al.Alphabet() == align.UNKNOWN // (data frequencies need the 20-letter alphabet)
+			pm, err := protein.NewProtDistModel(op.N%5, modelFreqs, false, 0, op.I%2 == 0)
 			if err != nil {
 				applied = false
 				break
